@@ -16,6 +16,7 @@ _MODULES = {
     "C13": ("scen_api", "C13"),
     "C14": ("scen_fs", "C14"),
     "C16": ("scen_c16", "C16"),
+    "C18": ("scen_c18", "C18"),
     "C19": ("scen_fs", "C19"),
     "C17": ("scen_c17", "C17"),
 }
